@@ -18,7 +18,13 @@ fn letter(rng: &mut Rng, l: u64) -> V {
     match l {
         0 => param(-7, "public-key"),
         1 => param(-8, "public-key"),
-        2 => param(*rng.pick(&[-257i128, -35, -9, -6, 0, 1, -2147483648, 2147483647, -65536]), "public-key"),
+        2 => param(
+            *rng.pick(&[
+                -257i128, -35, -9, -6, 0, 1, -2147483648, 2147483647, -65536, 65529, 65528, -65543, -65544, 249, 248, -263, -264, 7, 8, 6,
+                -7 + (1 << 24), -8 - (1 << 24), -7 + (1 << 31) - (1 << 16),
+            ]),
+            "public-key",
+        ),
         _ => param(
             *rng.pick(&[-7i128, -8]),
             *rng.pick(&["public-keys", "", "Public-Key", "x", "public-ke", "public-key\u{0}", "public-key\u{0}\u{0}", "public-key ", " public-key", "public-key\n", "PUBLIC-KEY"]),
